@@ -20,7 +20,7 @@ RULE = ("(encoder level, exhaustive) for eco-mode v1 and v2 groups x every prior
 ASSUMPTIONS = ["v1 groups carry no SoC and encode_discharge takes none: SoC is asserted for v2 ECO_CHARGE only",
                "a limit whose encoding is the all-ones 'no value' sentinel (65535) is outside the readable domain",
                "a setter that raises (e.g. ES with undecodable prior eco registers) has not 'succeeded': nothing is asserted then"]
-MUST = ["encoder_roundtrips", "mode_roundtrips", "eco_charge_checked", "eco_discharge_checked", "groups_off_checked",
+MUST = ["polls_between_setters", "encoder_roundtrips", "mode_roundtrips", "eco_charge_checked", "eco_discharge_checked", "groups_off_checked",
         "export_limit_roundtrips", "dod_roundtrips", "prior_nonempty_types", "es_modes", "et_745", "et_v1"]
 EXHAUSTIVE = {"quick": False, "thorough": False}
 
@@ -36,7 +36,7 @@ def prior_v2(rnd, onoff, fulltime=False):
     power = rnd.choice((-50, 30, 100, -100)) if typ == 0 else (rnd.choice((-50, 30, 250, -950, 1000)) if typ == 6 else
                                                                 rnd.choice((-50, 30, 250, -950, 3000)))
     return head + bytes([onoff, 0x7F if fulltime else rnd.choice((0, 0x7F, 0x15))]) + power.to_bytes(2, "big", signed=True) + \
-        rnd.randrange(0, 101).to_bytes(2, "big") + rnd.choice((0, 0x0FFF)).to_bytes(2, "big")
+        rnd.randrange(0, 101).to_bytes(2, "big") + rnd.choice((0, 0x0FFF, 0, 0x0FFF, 0x0007, 0x0800, 0x00E0, 0x0555)).to_bytes(2, "big")
 
 
 def prior_v1(rnd, on=True, fulltime=False, garbage=False):
@@ -119,6 +119,7 @@ def e2e_part(spec, part):
             refused = {"v2": [], "v1": ["eco_v2", "peak_shaving"], "745": [], "nopeak": ["peak_shaving"]}[variant]
             sim = models.et_sim(tag=tag, refused_blocks=refused)
             sim.regs[47000] = rnd.randrange(0, 6)
+            sim.regs[35184] = rnd.choice((0, 1, 2))        # battery mode (0 = no battery seen by the polls)
             v2 = variant != "v1"
         else:
             sim = models.es_sim(fw=b"2225F" if variant == "v2" else b"02525")
@@ -164,6 +165,10 @@ def e2e_part(spec, part):
             await inv.read_device_info()
             modes = list(await inv.get_operation_modes(True))
             rnd.shuffle(modes)
+            polls = rnd.random() < 0.6          # monitoring polls run between the setter calls, as in an integration
+            if polls:
+                await inv.read_runtime_data()
+                part.count("polls_between_setters")
             for m in modes:
                 p, s_ = rnd.randrange(1, 101), rnd.randrange(0, 101)
                 try:
@@ -243,6 +248,8 @@ def e2e_part(spec, part):
                 if got != x:
                     part.violate(f"C19/{fam}/export-limit-roundtrip", f"{tagtxt}: set_grid_export_limit({x}) then get = {got}", case)
             for d in [0, 1, 10, 50, 89, 99, 100] + [rnd.randrange(0, 101) for _ in range(3)]:
+                if polls and d % 3 == 0:
+                    await inv.read_runtime_data()
                 await inv.set_ongrid_battery_dod(d)
                 got = await inv.get_ongrid_battery_dod()
                 part.evaluations += 1
